@@ -40,14 +40,14 @@ class Refuse(Exception):
     pass
 
 
-def ast_dump(tu_text, name):
+def ast_dump(tu_text, name, extra=()):
     import threading
     tu = "/tmp/.cxx2gallina_%d_%d.cpp" % (os.getpid(), threading.get_ident())
     with open(tu, "w") as f:
         f.write(tu_text)
     try:
         r = subprocess.run(["clang++", "-std=c++20", f"-I{REPO}/include", "-fsyntax-only", "-Xclang", "-ast-dump=json",
-                            "-Xclang", f"-ast-dump-filter={name}", tu], capture_output=True, text=True, timeout=300)
+                            "-Xclang", f"-ast-dump-filter={name}", *extra, tu], capture_output=True, text=True, timeout=300)
     finally:
         os.remove(tu)
     txt = r.stdout
@@ -71,30 +71,90 @@ class Forest:
     """every declaration of the translation unit whose qualified name contains the filter (default `etl::`), from ONE
     clang run, so that node ids are consistent: function definitions (also the instantiations nested in
     FunctionTemplateDecl / class template specialisations) and variable declarations by id (for constants)."""
+    tu_text = ""                  # the translation unit of the current configuration
+    use_clang_constants = False   # configuration key "clang_constants"
 
     def __init__(self, objs):
         self.funcs = []
         self.vars = {}
         self.func_by_id = {}
+        self.ctors = []           # (class name, [template argument strings], CXXConstructorDecl) of class template specialisations
+        self.owner = {}           # function id -> (class name, [template argument strings]) of the enclosing specialisation
+        self.clang_values = None  # mangled name -> value of constexpr static data members, evaluated by clang (lazy)
         for o in objs:
-            self.walk(o)
+            self.walk(o, None)
 
-    def walk(self, n):
+    def walk(self, n, cls):
         k = n.get("kind")
         if k in ("FunctionDecl", "CXXMethodDecl", "CXXConversionDecl") and any(x.get("kind") == "CompoundStmt" for x in n.get("inner", [])):
             self.funcs.append(n)
             if "id" in n:
                 self.func_by_id[n["id"]] = n
+                if cls is not None:
+                    self.owner[n["id"]] = cls
             return
+        if k == "CXXConstructorDecl" and cls is not None:
+            self.ctors.append((cls[0], cls[1], n))
         if k == "VarDecl" and "id" in n:
             self.vars[n["id"]] = n
+        if k == "ClassTemplateSpecializationDecl":
+            args = []
+            for c in n.get("inner", []):
+                if isinstance(c, dict) and c.get("kind") == "TemplateArgument":
+                    args.append(c.get("type", {}).get("qualType") if "type" in c else str(c.get("value", "?")))
+            cls = (n.get("name"), args)
         for c in n.get("inner", []):
             if isinstance(c, dict):
-                self.walk(c)
+                self.walk(c, cls)
 
 
 SIZEOF = {"bool": 1, "char": 1, "signed char": 1, "unsigned char": 1, "short": 2, "unsigned short": 2, "int": 4, "unsigned int": 4,
           "long": 8, "unsigned long": 8, "long long": 8, "unsigned long long": 8, "wchar_t": 4, "char8_t": 1, "char16_t": 2, "char32_t": 4}
+
+
+def clang_constants(forest):
+    """values of the constexpr static data members of class template specialisations (ratio<N, D>::num / ::den and the
+    like), evaluated BY CLANG: every such VarDecl of the forest carries its mangled name; the demangled qualified name
+    is used as a non-type template argument in a second translation unit, whose AST shows the evaluated value."""
+    if forest.clang_values is not None:
+        return forest.clang_values
+    names = sorted({v["mangledName"] for v in forest.vars.values()
+                    if v.get("constexpr") and v.get("storageClass") == "static" and v.get("mangledName", "").startswith("_ZN")
+                    and ity_ok(v)})
+    forest.clang_values = {}
+    if not names:
+        return forest.clang_values
+    r = subprocess.run(["c++filt"], input="\n".join(names), capture_output=True, text=True, timeout=60)
+    dem = r.stdout.split("\n")[:len(names)]
+    ok = [(m, d) for m, d in zip(names, dem) if d and d != m and "(" not in d and "{" not in d and "'" not in d]
+    tu = Forest.tu_text + "\ntemplate <int VerifK, auto VerifV> struct verif_clang_value {};\n"
+    for i, (m, d) in enumerate(ok):
+        tu += f"verif_clang_value<{i}, ({d})> verif_clang_value_{i};\n"
+    try:
+        objs = ast_dump(tu, "verif_clang_value", extra=("-ferror-limit=0",))   # (a private member is an error of its own line only)
+    except Refuse:
+        return forest.clang_values
+
+    def walk(n):
+        if not isinstance(n, dict):
+            return
+        if n.get("kind") == "ClassTemplateSpecializationDecl" and n.get("name") == "verif_clang_value":
+            a = [c for c in n.get("inner", []) if isinstance(c, dict) and c.get("kind") == "TemplateArgument"]
+            if len(a) == 2 and "value" in a[0] and "value" in a[1]:
+                forest.clang_values[ok[int(a[0]["value"])][0]] = int(a[1]["value"])
+        for c in n.get("inner", []):
+            walk(c)
+    for o in objs:
+        walk(o)
+    return forest.clang_values
+
+
+def ity_ok(node):
+    try:
+        ity_of(node)
+        return True
+    except Refuse:
+        return False
 
 
 def const_call(fn, forest):
@@ -129,6 +189,9 @@ def const_eval(n, forest, depth=0):
             if not lo <= v <= hi:
                 raise Refuse("constant initialiser: value-changing cast")
         return v
+    if k in ("InitListExpr", "CXXScalarValueInitExpr") and not inner:
+        ity_of(n)           # value-initialisation of an integer type: zero
+        return 0
     if k == "UnaryExprOrTypeTraitExpr" and n.get("name") == "sizeof":
         t = strip_cv(n.get("argType", {}).get("desugaredQualType") or n.get("argType", {}).get("qualType") or "")
         if t in SIZEOF:
@@ -162,7 +225,13 @@ def const_eval(n, forest, depth=0):
         if v is not None:
             init = [c for c in v.get("inner", []) if isinstance(c, dict) and c.get("kind") not in ("FullComment",)]
             if init:
-                return const_eval(init[0], forest, depth + 1)
+                try:
+                    return const_eval(init[0], forest, depth + 1)
+                except Refuse:
+                    # not foldable here (calls gcd / abs ...): a constexpr static data member can be evaluated by clang
+                    if Forest.use_clang_constants and v.get("mangledName") in clang_constants(forest):
+                        return clang_constants(forest)[v["mangledName"]]
+                    raise
         raise Refuse(f"constant {n.get('referencedDecl', {}).get('name')} has no visible initialiser")
     raise Refuse(f"constant initialiser kind {k}")
 
@@ -186,9 +255,65 @@ def ity_of(node):
     raise Refuse(f"non-integer type '{qt(node)}' at {node.get('kind')}")
 
 
+import re
+
+_TY_WORDS = sorted(ITY, key=len, reverse=True)
+
+
+def type_key(t):
+    """an identifier fragment for a printed C++ type (used only to NAME generated definitions)"""
+    t = strip_cv(t)
+    for w in ("etl::chrono::", "etl::", "typename ", "struct ", "class "):
+        t = t.replace(w, "")
+    for w in _TY_WORDS:
+        t = re.sub(r"(?<![A-Za-z0-9_])" + re.escape(w) + r"(?![A-Za-z0-9_])", ITY[w][0], t)
+    t = re.sub(r"[^A-Za-z0-9]+", "_", t).strip("_")
+    return t
+
+
+def record_canon(t):
+    """canonical spelling of a printed class template specialisation (default template arguments of duration and
+    ratio written out), so that `duration<int>` and `duration<int, etl::ratio<1, 1>>` compare equal"""
+    t = strip_cv(t)
+    for w in ("etl::chrono::", "etl::", "typename ", "struct ", "class "):
+        t = t.replace(w, "")
+    t = t.replace(" ", "")
+    t = re.sub(r"ratio<(-?[0-9]+)>", r"ratio<\1,1>", t)
+    t = re.sub(r"duration<([A-Za-z_]+)>", r"duration<\1,ratio<1,1>>", t)
+    return t
+
+
+OPNAMES = {"operator+": "op_plus", "operator-": "op_minus", "operator*": "op_mul", "operator/": "op_div", "operator%": "op_mod",
+           "operator<": "op_lt", "operator>": "op_gt", "operator<=": "op_le", "operator>=": "op_ge", "operator==": "op_eq",
+           "operator!=": "op_ne"}
+
+
+def callee_name(fn, forest):
+    """deterministic Gallina name of a function translated on demand: name, template arguments of the enclosing class
+    specialisation, own template arguments, parameter types"""
+    parts = [OPNAMES.get(fn.get("name"), re.sub(r"[^A-Za-z0-9]+", "_", fn.get("name", "fn")))]
+    own = forest.owner.get(fn.get("id"))
+    if own is not None:
+        parts.append(own[0])
+        parts += [type_key(a or "") for a in own[1]]
+    for c in fn.get("inner", []):
+        if c.get("kind") == "TemplateArgument":
+            parts.append(type_key(c["type"]["qualType"]) if "type" in c else str(c.get("value", "x")))
+    parts.append("of")
+    for c in fn.get("inner", []):
+        if c.get("kind") == "ParmVarDecl":
+            parts.append(type_key(qt(c)))
+    return "_".join(x for x in parts if x) + "_g"
+
+
 class Tr:
     forest = None         # all declarations of the translation unit (set per configuration)
     kernel_calls = {}     # C++ function name -> Gallina name of an already generated kernel (set per configuration)
+    auto_callees = False  # configuration key "auto_callees": translate called functions on demand, resolved by declaration id
+    kernel_ids = {}       # declaration id -> Gallina name of an already generated definition
+    pending = []          # definitions generated on demand, to be emitted before the kernel being translated
+    in_progress = set()   # declaration ids being translated (recursion is refused)
+    cfg = {}
 
     def __init__(self, records, calls, members):
         self.binds = []       # list of (kind, name, rhs) ; kind in {"do", "let"}
@@ -278,7 +403,7 @@ class Tr:
         if k in ("CXXTemporaryObjectExpr", "CXXConstructExpr"):
             t = strip_cv(qt(n))
             key = t.split("<")[0].split("::")[-1]
-            if key in self.records:
+            if key in self.records and self.records[key]["kind"] != "ctor":
                 spec = self.records[key]
                 args = [self.expr(x) for x in inner]
                 if spec["kind"] == "cast":
@@ -289,7 +414,17 @@ class Tr:
                     return "(" + ", ".join(args) + ")"
                 if spec["kind"] == "id":
                     return args[0]
+            if key in self.records and self.records[key]["kind"] == "ctor":
+                return self.construct(n, key, self.records[key])
             raise Refuse(f"constructor of record type {t}")
+        if k == "InitListExpr":
+            # T x{e} with e a prvalue of the same record type: the (elided) copy
+            t = strip_cv(qt(n))
+            key = t.split("<")[0].split("::")[-1]
+            if (key in self.records and self.records[key]["kind"] == "ctor" and len(inner) == 1
+                    and record_canon(qt(inner[0])) == record_canon(qt(n))):
+                return self.expr(inner[0])
+            raise Refuse(f"initializer list of type {t}")
         if k in ("CXXMemberCallExpr", "CallExpr", "CXXOperatorCallExpr"):
             callee = inner[0]
             while callee.get("kind") in ("ImplicitCastExpr", "ParenExpr"):
@@ -299,14 +434,41 @@ class Tr:
                 # x.count(), static_cast<unsigned>(m) via conversion operator, ... : value-carrying accessors
                 if name in self.calls and self.calls[name] == "id":
                     return self.expr(callee["inner"][0])
+                if name in self.calls and self.calls[name].startswith("getter:"):
+                    # accessor of a record carried as its one data member: the body must be `return <member>;`
+                    check_getter(Tr.forest, callee.get("referencedMemberDecl"), self.calls[name][len("getter:"):])
+                    return self.expr(callee["inner"][0])
             if name in self.calls and self.calls[name] == "id":
                 return self.expr(inner[1])
             if len(inner) == 1 and Tr.forest is not None:
                 fid = callee.get("referencedDecl", {}).get("id") or callee.get("referencedMemberDecl")
                 fn = Tr.forest.func_by_id.get(fid)
                 if fn is not None:
-                    v = const_call(fn, Tr.forest)
-                    return str(v) if v >= 0 else f"({v})"
+                    try:
+                        v = const_call(fn, Tr.forest)
+                        return str(v) if v >= 0 else f"({v})"
+                    except Refuse:
+                        if not Tr.auto_callees:
+                            raise
+            if Tr.auto_callees and callee.get("kind") == "DeclRefExpr" and Tr.forest is not None:
+                # a call resolved by DECLARATION ID (overloads / instantiations share a name): the callee is a kernel
+                # translated earlier or is translated now, on demand, under a name derived from its types
+                ref = callee.get("referencedDecl", {})
+                fn = Tr.forest.func_by_id.get(ref.get("id"))
+                if fn is None:
+                    raise Refuse(f"call to {name}: no visible definition")
+                if fn.get("kind") == "CXXMethodDecl" and (k == "CXXOperatorCallExpr" or fn.get("storageClass") != "static"):
+                    raise Refuse(f"call to non-static member function {name}")
+                if fn.get("kind") not in ("FunctionDecl", "CXXMethodDecl"):
+                    raise Refuse(f"call to {fn.get('kind')} {name}")
+                g = ensure_callee(fn)
+                nparams = sum(1 for p in fn.get("inner", []) if p.get("kind") == "ParmVarDecl")
+                if nparams != len(inner) - 1:
+                    raise Refuse(f"call to {name}: {len(inner) - 1} arguments for {nparams} parameters")
+                args = [self.expr(x) for x in inner[1:]]
+                t = self.fresh()
+                self.binds.append(("do", t, " ".join([g] + args)))
+                return t
             if name in self.kernel_calls and callee.get("kind") == "DeclRefExpr":
                 # a call to a kernel translated earlier in the same file: evaluate the arguments (left to right;
                 # they are side-effect free in the accepted subset), then bind the callee's checked result
@@ -316,6 +478,43 @@ class Tr:
                 return t
             raise Refuse(f"call to {name}")
         raise Refuse(f"expression kind {k}")
+
+    def construct(self, n, key, spec):
+        """construction of a record carried as its single data member `spec["member"]`: the constructor DEFINITION selected
+        by overload resolution is looked up (class specialisation + parameter type, exactly one candidate) and its member
+        initialiser is translated with the parameter bound to the argument; a defaulted copy / move constructor copies."""
+        if Tr.forest is None:
+            raise Refuse("constructor without declarations")
+        cls = record_canon(qt(n))
+        ct = n.get("ctorType", {}).get("qualType", "")
+        m = re.match(r"^void \((.*)\)( noexcept)?$", ct)
+        args = [x for x in n.get("inner", []) if isinstance(x, dict)]
+        if not m or len(args) != 1 or "," in re.sub(r"<[^()]*>", "", m.group(1)):
+            raise Refuse(f"constructor {ct} of {cls} with {len(args)} arguments")
+        want = record_canon(m.group(1))
+        cands = []
+        for (cname, cargs, d) in Tr.forest.ctors:
+            if cname != key or record_canon(cname + "<" + ", ".join(a or "?" for a in cargs) + ">") != cls:
+                continue
+            ps = [p for p in d.get("inner", []) if p.get("kind") == "ParmVarDecl"]
+            if len(ps) != 1 or record_canon(qt(ps[0])) != want:
+                continue
+            inits = [x for x in d.get("inner", []) if x.get("kind") == "CXXCtorInitializer"]
+            if d.get("explicitlyDefaulted") == "default" or inits:
+                cands.append((d, ps[0], inits))
+        if len(cands) != 1:
+            raise Refuse(f"{len(cands)} definitions of constructor {ct} of {cls}")
+        d, p, inits = cands[0]
+        arg = self.expr(args[0])
+        if d.get("explicitlyDefaulted") == "default":
+            if want != cls:
+                raise Refuse(f"defaulted constructor {ct} of {cls}")
+            return arg
+        body = [x for x in d.get("inner", []) if x.get("kind") == "CompoundStmt"]
+        if len(inits) != 1 or inits[0].get("anyInit", {}).get("name") != spec.get("member") or len(body) != 1 or body[0].get("inner"):
+            raise Refuse(f"constructor {ct} of {cls}: not a single initialiser of {spec.get('member')} with an empty body")
+        self.env[p["id"]] = arg
+        return self.expr([x for x in inits[0].get("inner", []) if isinstance(x, dict)][0])
 
     def branch(self, n):
         """translate in a sub-context; returns (term, monadic-or-None)"""
@@ -401,7 +600,7 @@ class Tr:
             k = s["kind"]
             if k == "DeclStmt":
                 for d in s.get("inner", []):
-                    if d["kind"] in ("StaticAssertDecl", "TypeAliasDecl", "TypedefDecl"):
+                    if d["kind"] in ("StaticAssertDecl", "TypeAliasDecl", "TypedefDecl", "UsingDecl"):
                         continue      # no run-time meaning; the types they name reach us through the typed AST
                     if d["kind"] != "VarDecl" or "inner" not in d:
                         raise Refuse(f"declaration {d['kind']}")
@@ -483,13 +682,66 @@ def select(forest, k):
         cands = [o for o in cands if all(x in o.get("type", {}).get("qualType", "") for x in k["signature_contains"])]
     if "signature_is" in k:
         cands = [o for o in cands if o.get("type", {}).get("qualType", "") == k["signature_is"]]
+    if "template_args" in k:
+        # the instantiation with exactly these template arguments (compared in canonical spelling, see record_canon)
+        def targs(o):
+            return [record_canon(c["type"]["qualType"]) if "type" in c else str(c.get("value"))
+                    for c in o.get("inner", []) if c.get("kind") == "TemplateArgument"]
+        cands = [o for o in cands if targs(o) == [record_canon(a) for a in k["template_args"]]]
     if len(cands) != 1:
         raise Refuse(f"{len(cands)} candidate definitions for {k['cxx_name']} {k.get('signature_contains', k.get('signature_is', ''))}")
     return cands[0]
 
 
+def check_getter(forest, mid, member):
+    fn = forest.func_by_id.get(mid) if forest is not None else None
+    if fn is None:
+        raise Refuse("accessor without visible definition")
+    body = [x for x in fn["inner"] if x.get("kind") == "CompoundStmt"][0].get("inner", [])
+    if len(body) == 1 and body[0].get("kind") == "ReturnStmt":
+        e = body[0]["inner"][0]
+        while e.get("kind") in ("ImplicitCastExpr", "ParenExpr") and e.get("castKind", "LValueToRValue") in ("LValueToRValue", "NoOp"):
+            e = e["inner"][0]
+        if e.get("kind") == "MemberExpr" and e.get("name") == member and e["inner"][0].get("kind") == "CXXThisExpr":
+            return
+    raise Refuse(f"accessor {fn.get('name')} is not `return {member};`")
+
+
+def ensure_callee(fn):
+    fid = fn["id"]
+    if fid in Tr.kernel_ids:
+        return Tr.kernel_ids[fid]
+    if fid in Tr.in_progress:
+        raise Refuse(f"recursive call of {fn.get('name')}")
+    g = callee_name(fn, Tr.forest)
+    if g in Tr.kernel_ids.values():
+        raise Refuse(f"generated name {g} is not unique")
+    Tr.in_progress.add(fid)
+    try:
+        text = translate_fn(fn, {"gallina_name": g}, Tr.cfg)
+    finally:
+        Tr.in_progress.discard(fid)
+    Tr.pending.append(text)
+    Tr.kernel_ids[fid] = g
+    return g
+
+
 def translate_kernel(k, cfg, forest):
     fn = select(forest, k)
+    if Tr.auto_callees and fn.get("id") in Tr.kernel_ids:
+        # already generated as the callee of an earlier kernel: the listed name is an alias of that definition
+        return f"Definition {k['gallina_name']} := {Tr.kernel_ids[fn['id']]}.\n"
+    Tr.in_progress.add(fn.get("id"))
+    try:
+        text = translate_fn(fn, k, cfg)
+    finally:
+        Tr.in_progress.discard(fn.get("id"))
+    if Tr.auto_callees and "id" in fn:
+        Tr.kernel_ids[fn["id"]] = k["gallina_name"]
+    return text
+
+
+def translate_fn(fn, k, cfg):
     tr = Tr(cfg.get("records", {}), cfg.get("calls", {}), k.get("members", {}))
     params = []
     ptypes = {}
@@ -534,6 +786,8 @@ def preprocessed_key(cfg):
 
 def main():
     cfg = json.load(open(sys.argv[1]))
+    if "tu_file" in cfg:      # the translation unit as a file next to the configuration
+        cfg["tu"] = open(os.path.join(os.path.dirname(os.path.abspath(sys.argv[1])), cfg["tu_file"])).read()
     outp = sys.argv[2]
     keyp = os.path.join(os.path.dirname(outp), "." + os.path.basename(outp) + ".key")
     key = preprocessed_key(cfg)
@@ -551,6 +805,12 @@ def main():
            "Notation \"'do' x <- a ; b\" := (obind a (fun x => b)) (at level 200, x name, a at level 100, b at level 200).", ""]
     refused = {}
     Tr.kernel_calls = {}
+    Tr.kernel_ids = {}
+    Tr.in_progress = set()
+    Tr.cfg = cfg
+    Tr.auto_callees = bool(cfg.get("auto_callees"))
+    Forest.tu_text = cfg["tu"]
+    Forest.use_clang_constants = bool(cfg.get("clang_constants"))
     try:
         forest = Forest(ast_dump(cfg["tu"], cfg.get("filter", "etl::")))
     except Refuse as e:
@@ -560,7 +820,10 @@ def main():
         try:
             if isinstance(forest, Refuse):
                 raise forest
-            out.append(translate_kernel(k, cfg, forest))
+            Tr.pending = []
+            text = translate_kernel(k, cfg, forest)
+            out.extend(Tr.pending)
+            out.append(text)
             if k.get("callable"):
                 Tr.kernel_calls[k["cxx_name"]] = k["gallina_name"]
         except Refuse as e:
